@@ -192,6 +192,10 @@ func (i *interpreter) block(ready func() bool, what string) {
 		cur.ready, cur.what = ready, what
 		next := i.pick(cur)
 		if next == nil {
+			// nothing can run: let a pending time.After timer fire (timeouts make progress), else it is a deadlock
+			if i.fireAfter() {
+				continue
+			}
 			i.ex.end(oDeadlock, "blocks forever: %s (%s)", what, i.blockedSummary())
 		}
 		i.switchTo(cur, next)
@@ -415,4 +419,23 @@ func (i *interpreter) selectStmt(fr *frame, instr *ssa.Select) value {
 		}
 	}
 	return r
+}
+
+
+// fireAfter delivers the tick of one pending time.After channel; false if none is pending.
+func (i *interpreter) fireAfter() bool {
+	var pending []*schan
+	for _, ch := range i.afterChans {
+		if !ch.fired {
+			pending = append(pending, ch)
+		}
+	}
+	if len(pending) == 0 {
+		return false
+	}
+	ch := pending[i.ex.Choose(len(pending), "timeout")]
+	ch.fired = true
+	i.clock += 1000000000
+	ch.buf = append(ch.buf, structure{i.mkInt(types.Uint64, 0), i.mkInt(types.Int64, 63000000000+i.clock), (*value)(nil)})
+	return true
 }
